@@ -12,3 +12,5 @@ import RactorModel.Props.C05
 import RactorModel.Props.C02
 import RactorModel.Props.C07
 import RactorModel.Props.C06
+import RactorModel.Props.C19
+import RactorModel.Props.C17
